@@ -201,9 +201,70 @@ fn verify_image(ctx: &Ctx, img: &Image, idx: usize, out: &mut RunOut, depth: u32
     vs
 }
 
+/// Crash points while the storage is being initialised for the very first time (database file
+/// creation, journal-mode switch, schema statements): every image must open with the normal
+/// constructor and then serve a first client completely.
+fn init_phase(plan: &CrashPlan, out: &mut RunOut) {
+    let dir = fresh_dir("init");
+    vfs::track(&dir);
+    vfs::mark_all_durable();
+    vfs::set_capture(true, plan.power_images.min(2), false, 64 << 20);
+    vfs::pause_capture(false);
+    vfs::set_cur_req(0);
+    let r = taskchampion_sync_server_storage_sqlite::SqliteStorage::new(&dir);
+    vfs::pause_capture(true);
+    vfs::set_capture(false, 0, false, 0);
+    let images = vfs::take_images();
+    drop(r);
+    let _ = std::fs::remove_dir_all(&dir);
+    let empty = Model::new(plan.cfg);
+    for (i, img) in images.iter().enumerate() {
+        if crate::report::should_stop(out) {
+            break;
+        }
+        out.bump(&format!("fault.crash_during_initialisation.{}", img.kind));
+        let d = fresh_dir("initimg");
+        if vfs::materialise(img, &d).is_err() {
+            continue;
+        }
+        let label = format!("initialisation image #{i} ({} before `{}` {})", img.kind, img.at_call, img.detail.trim());
+        let t_save = sched::now_us();
+        match World::attach(plan.seed, &d, Entry::Lib, plan.n_clients, plan.cfg, empty.clone()) {
+            Err(e) => out.violations.push(viol(&["C04"], "crash.init_cannot_open", format!("{label}: the data directory does not open after a crash during first initialisation: {e:#}"))),
+            Ok(mut w) => {
+                let mut side = RunOut::default();
+                let script = [
+                    Op::Create { c: 0 },
+                    Op::AddVersion { c: 0, parent: ops::IdArg::Nil, pay: ops::Pay { class: 2, len: 20, tag: 9_500_000 }, ch: crate::http::Chunking::Whole },
+                    Op::AddVersion { c: 0, parent: ops::IdArg::Latest, pay: ops::Pay { class: 3, len: 300, tag: 9_500_001 }, ch: crate::http::Chunking::Whole },
+                    Op::AddSnapshot { c: 0, v: ops::IdArg::Latest, pay: ops::Pay { class: 4, len: 50, tag: 9_500_002 }, ch: crate::http::Chunking::Whole },
+                    Op::GetSnapshot { c: 0 },
+                    Op::Restart,
+                ];
+                for op in &script {
+                    w.step(op, &mut side);
+                }
+                w.full_check(&mut side);
+                if let Some(v) = side.violations.first() {
+                    out.violations.push(viol(&["C04"], "crash.init_not_served", format!("{label}: after recovery the server does not work: [{}] {}", v.oracle, v.msg)));
+                }
+            }
+        }
+        sched::set_now_us(t_save);
+        let _ = std::fs::remove_dir_all(&d);
+    }
+    out.add("probe.initialisation_crash_images", images.len() as u64);
+}
+
 pub fn exec(plan: &CrashPlan) -> RunOut {
     let mut out = RunOut::default();
     crate::world::begin_run(plan.seed, plan.start_us);
+    if plan.only_image.is_none() && plan.seed % 4 == 0 {
+        init_phase(plan, &mut out);
+        if crate::report::should_stop(&out) {
+            return out;
+        }
+    }
     let mut w = match World::new(plan.seed, Backend::Sqlite, plan.entry, plan.page_size, plan.n_clients, plan.cfg, None) {
         Ok(w) => w,
         Err(e) => {
